@@ -218,3 +218,9 @@ pub fn normalize_longitudes(contour: Contour) -> Contour {
         })
         .collect()
 }
+
+/// Verification hook: the private longitude offset
+#[cfg(feature = "verif")]
+pub fn verif_longitude_offset() -> f64 {
+    LONGITUDE_OFFSET
+}
